@@ -712,7 +712,10 @@ class C06Tracers(Machine):
             if kind in ("specialized", "basic"):
                 op["dz"] = rng.pick([1, 2, 5]) if kind == "specialized" else rng.pick([2, 5])
             return op
-        if rng.chance(self.cfg["read_prob"]):
+        focus_path = self.path is not None and rng.chance(0.6)
+        if focus_path and rng.chance(0.5):
+            return {"op": "path_read"}
+        if not focus_path and rng.chance(self.cfg["read_prob"]):
             if self.path is not None and rng.chance(0.5):
                 return {"op": "path_read"}
             return {"op": "read"}
@@ -723,6 +726,9 @@ class C06Tracers(Machine):
             choices += ["set_maxref", "set_maxref"]
         if self.path is not None:
             choices += ["path_set", "path_set"]
+        if focus_path:
+            # while a path object is held, keep reading and assigning on it
+            choices = ["path_set"]
         k = rng.pick(choices)
         if k in ("set_from", "set_to") and rng.chance(0.35):
             # augmented assignment: tracer.to_point += delta (rebinds the same array object)
@@ -763,6 +769,12 @@ class C06Tracers(Machine):
         return [float(p.tof), float(p.path_length),
                 [float(x) for x in p.emitted_direction],
                 [float(x) for x in p.received_direction]]
+
+    @staticmethod
+    def _path_summary_att(p):
+        # attenuation at one fixed pair of frequencies is a derived quantity of the path as well
+        # (asked with the same argument before and after assignments)
+        return C06Tracers._path_summary(p) + [float(x) for x in p.attenuation(np.array([1.5e8, 4e8]))]
 
     def _tracer_summary(self, t):
         ex = bool(t.exists)
@@ -898,7 +910,7 @@ class C06Tracers(Machine):
             self.p_reads += 1
             self.p_mut = False
             pa = dict(self.path_attrs)
-            return ["path_read", self._compare("path", self._path_summary, self.path,
+            return ["path_read", self._compare("path", self._path_summary_att, self.path,
                                                lambda: self._fresh_path(pa))]
         if name == "path_set":
             attr, value = op["attr"], op["value"]
